@@ -128,7 +128,7 @@ func c12Case(c *core.Ctx) {
 	stepsDone := 0
 	for t := 0; t < T; t++ {
 		seg := &MRun{Model: model, N: 1, T: 1, Sets: run.Sets, Inputs: sliceT(run.Inputs, t, t+1), States: st}
-		so, err := Execute(seg)
+		so, err := ExecuteFor(c, seg)
 		if err != nil {
 			c.Violate("prepare", model, err.Error())
 			return
@@ -328,7 +328,7 @@ func c12Case(c *core.Ctx) {
 	// downstream / deposits / keeps differs from the balanced one.
 	if stepsDone == T && len(c.Res.Violations) == 0 {
 		whole := &MRun{Model: model, N: 1, T: T, Sets: run.Sets, Inputs: run.Inputs, States: [][]float64{append([]float64{}, st0...)}}
-		if wo, err := Execute(whole); err == nil {
+		if wo, err := ExecuteFor(c, whole); err == nil {
 			c.Count("whole_run_comparisons", 1)
 		cmp:
 			for j, n := range desc.Outputs {
